@@ -147,6 +147,8 @@ def run(tier):
     scripts = []
     for (cid, cname, ci, sg, src, out, n) in runs:
         lines = ["case %s 300" % cid, "ctx 0", "open 0 %s rwt" % out, "init_write 0 0"] + writegen.cfg_lines(cfgs[ci], 0, wd, cid)
+        if sg != "whole" and len(scripts) % 2 == 0:
+            lines += writegen.refused_lines(cfgs[ci], 0, len(scripts) // 2)      # (the "whole" twin of the same content never makes such a call)
         if sg == "whole":
             lines.append("write 0 file:%s" % src)
         else:
